@@ -523,7 +523,9 @@ class AccessoryConn(asyncio.Protocol):
                 code = int(mode.split("_")[1])
                 return self.send(self._tlv_reply([(6, b"\x02"), (7, b"\x02")], code))
             if mode.startswith("m2_err:"):
-                return self.send(self._tlv_reply([(6, b"\x02"), (7, bytes([int(mode.split(':')[1])]))]))
+                # m2_err:<error code>[:<http status>] - the TLV error reply may travel with an HTTP 4xx status
+                parts = mode.split(":")
+                return self.send(self._tlv_reply([(6, b"\x02"), (7, bytes([int(parts[1])]))], int(parts[2]) if len(parts) > 2 else 200))
             identity = acc.identity
             if mode == "wrong_id":
                 identity = acc.other_identity
@@ -557,7 +559,8 @@ class AccessoryConn(asyncio.Protocol):
             if mode == "hang_m4":
                 return None
             if mode.startswith("m4_err:"):
-                return self.send(self._tlv_reply([(6, b"\x04"), (7, bytes([int(mode.split(':')[1])]))]))
+                parts = mode.split(":")
+                return self.send(self._tlv_reply([(6, b"\x04"), (7, bytes([int(parts[1])]))], int(parts[2]) if len(parts) > 2 else 200))
             if self.exchange is None:
                 return self.send(self._tlv_reply([(6, b"\x04"), (7, b"\x02")]))
             reply = self.exchange.m3(items)
